@@ -75,6 +75,10 @@ class C19(Prop):
             rows = [[3 if j == i else 0 for j in range(n)] + [2 * ((i + n) % 2)] for i in range(n)] + \
                    [[1 if j == i else 0 for j in range(n)] + [0] for i in range(n)]
             yield {"k": "density", "rows": rows, "r": 0}
+        # wide registers: N - r crosses 64 (one machine word of coin bits)
+        for j, (n, r) in enumerate(((63, 0), (64, 0), (65, 0), (72, 0), (72, 8), (96, 0), (130, 1))):
+            yield {"k": "widesample", "n": n, "r": r, "sign": [rng.randrange(2) for _ in range(n)], "L": 400, "seed": sd + 77 + j, "pkg": "py"}
+        yield {"k": "widesample", "n": 72, "r": 0, "sign": [rng.randrange(2) for _ in range(72)], "L": 400, "seed": sd + 99}
         for w in range(1, 11):
             yield {"k": "binrepr", "ints": list(range(0, 2 ** w, max(1, 2 ** w // 64))) + [2 ** w - 1], "width": w}
             yield {"k": "binrepr", "ints": list(range(2 ** w)), "width": None, "w": w}
@@ -103,6 +107,14 @@ class C19(Prop):
                 be.seed(scn["seed"])
                 rec["samples"] = be.p_list(S.sample(scn["L"]))
                 rec["pre1"] = be.p_state(S)
+            elif k == "widesample":
+                n = scn["n"]
+                rec.update(n=n, r=scn["r"], sign=scn["sign"], L=scn["L"])
+                rows = [[3 if j == i else 0 for j in range(n)] + [2 * scn["sign"][i]] for i in range(n)] + \
+                       [[1 if j == i else 0 for j in range(n)] + [0] for i in range(n)]
+                S = be.state(rows, scn["r"])
+                be.seed(scn["seed"])
+                rec["samples"] = be.p_list(S.sample(scn["L"]))
             elif k == "sampledist":
                 rec["pre"] = {"rows": scn["rows"], "r": scn["r"]}
                 S = be.state(scn["rows"], scn["r"])
